@@ -11,6 +11,8 @@ import MsmVerif.Model.Relabel
 import MsmVerif.Model.Linalg
 import MsmVerif.Model.Timescales
 import MsmVerif.Model.Filter
+import MsmVerif.Model.Heap
+import MsmVerif.Model.TextIO
 
 open Lean
 
@@ -545,6 +547,126 @@ def opMsmPaths (j : Json) : Except String Json := do
   return Json.mkObj [("model", ofExcept ofPathTuples model), ("chain", ofInts chain), ("cum_ok", Json.bool (cumJudge j cum perm)),
     ("holds", Json.bool true)]
 
+def acc? (j : Json) : Except String Heap.Acc := do
+  let n ← str? (← field j "acc")
+  match n with
+  | "trajs" => return .trajs | "index_trajs" => return .indexTrajs | "states" => return .states
+  | "trajs_flatten" => return .trajsFlatten | "index_trajs_flatten" => return .indexTrajsFlatten
+  | "getitem" => return .getitem (← nat? (← field j "k"))
+  | "microstate_trajs" => return .microTrajs | "microstate_index_trajs" => return .microIndexTrajs
+  | "microstates" => return .microstates | "state_assignment" => return .stateAssignment
+  | _ => throw s!"bad accessor {n}"
+
+/-- C02/C18: run an op sequence on the heap model.  Addresses in `write` ops refer to the model's own allocation order:
+`{"arg": i}` = i-th constructor argument array, `{"ret": [n, k]}` = k-th array returned by the n-th access op. -/
+def opHeapRun (j : Json) : Except String Json := do
+  let micro ← trajs? (← field j "args")
+  let lumped := (j.getObjVal? "macro").toOption.isSome
+  let macroT ← (if lumped then do trajs? (← field j "macro") else pure [])
+  let ops ← arr? (← field j "ops")
+  -- allocate the argument arrays
+  let mut s : Heap.State := { heap := [] }
+  let mut argAddrs : List Nat := []
+  let mut macroAddrs : List Nat := []
+  for t in micro do
+    let (s', as) := s.allocMany [t]
+    s := { s' with known := s'.known ++ as }
+    argAddrs := argAddrs ++ as
+  for t in macroT do
+    let (s', as) := s.allocMany [t]
+    s := { s' with known := s'.known ++ as }
+    macroAddrs := macroAddrs ++ as
+  s := (Heap.step s (if lumped then .constructLumped macroAddrs argAddrs else .construct argAddrs)).1
+  let mut outs : List Json := []
+  let mut rets : List (List Nat) := []       -- addresses returned by each access op
+  for o in ops do
+    let kind ← str? (← field o "op")
+    if kind == "access" then
+      let a ← acc? o
+      let before := s.heap.length
+      let (s', vals) := Heap.step s (.access a)
+      s := s'
+      rets := rets ++ [(List.range vals.length).map (· + before)]
+      outs := outs ++ [ofTrajs vals]
+    else if kind == "write" then
+      let pos ← nat? (← field o "pos")
+      let v ← int? (← field o "val")
+      let tgt ← field o "target"
+      -- targets and positions are resolved modulo the actual sizes, exactly as the harness does on the real arrays
+      let held := argAddrs ++ macroAddrs
+      let addr? : Option Nat ← (match tgt.getObjVal? "arg" with
+        | .ok i => do
+          let i ← nat? i
+          pure (if held.isEmpty then none else some (held.getD (i % held.length) 0))
+        | .error _ => do
+          let r ← nats? (← field tgt "ret")
+          let lst := rets.getD (r.getD 0 0) []
+          pure (if r.getD 0 0 ≥ rets.length || lst.isEmpty then none else some (lst.getD (r.getD 1 0 % lst.length) 0)))
+      match addr? with
+      | none => pure ()
+      | some addr =>
+        let arr := s.read addr
+        if !arr.isEmpty then
+          s := (Heap.step s (.write addr (pos % arr.length) v)).1
+      outs := outs ++ [Json.null]
+    else
+      s := (Heap.step s .reconstruct).1
+      outs := outs ++ [Json.null]
+  let rep := Heap.report s
+  let repJ := match rep with
+    | some r => Json.mkObj [("index_trajs", ofTrajs r.idxTrajs), ("states", ofInts r.sts)]
+    | none => Json.null
+  return Json.mkObj [("model", Json.mkObj [("ok", Json.mkObj [("outs", Json.arr outs.toArray), ("report", repJ)])]), ("holds", Json.bool true)]
+
+def strs? (j : Json) : Except String (List String) := do (← arr? j).mapM str?
+def optNats? (j : Json) (k : String) : Except String (Option (List Nat)) :=
+  match j.getObjVal? k with
+  | .ok v => if v.isNull then pure none else do return some (← nats? v)
+  | .error _ => pure none
+def optNat? (j : Json) (k : String) : Except String (Option Nat) :=
+  match j.getObjVal? k with
+  | .ok v => if v.isNull then pure none else do return some (← nat? v)
+  | .error _ => pure none
+
+/-- C16: what `savetxt` writes -/
+def opIoWrite (j : Json) : Except String Json := do
+  let hdr ← str? (← field j "hdr")
+  let fmt ← str? (← field j "fmt")
+  let tbl ← trajs? (← field j "table")
+  let lines := TextIO.writeTable hdr.toList (if fmt == "f0" then .f0 else .f5) tbl
+  return Json.mkObj [("model", Json.mkObj [("ok", Json.arr (lines.map (fun l => Json.str (String.ofList l))).toArray)]), ("holds", Json.bool true)]
+
+/-- C16: what `opentxt` / `opentxt_limits` / `openmicrostates` read -/
+def opIoRead (j : Json) : Except String Json := do
+  let lines ← strs? (← field j "lines")
+  let cols ← optNats? j "usecols"
+  let nrows ← optNat? j "nrows"
+  let limits ← optNats? j "limits"
+  let dt := match (j.getObjVal? "dtype").toOption.bind (fun v => v.getStr?.toOption) with
+    | some "int8" => some TextIO.IntDtype.i8 | some "int16" => some .i16 | some "int32" => some .i32 | some "int64" => some .i64
+    | _ => none
+  let dtName := match TextIO.microDtype dt with | .i8 => "int8" | .i16 => "int16" | .i32 => "int32" | .i64 => "int64"
+  match TextIO.readTable (lines.map String.toList) with
+  | none => return Json.mkObj [("model", Json.mkObj [("err", "ParseError")]), ("holds", Json.bool true)]
+  | some tbl0 =>
+    let tbl1 := match nrows with | some n => tbl0.take n | none => tbl0
+    let tbl := match cols with | some c => TextIO.selectColsCode c tbl1 | none => tbl1
+    let spec := match cols with | some c => TextIO.selectCols c tbl1 | none => tbl1
+    match limits with
+    | none => return Json.mkObj [("model", Json.mkObj [("ok", Json.mkObj [("table", ofTrajs tbl), ("dtype", Json.str dtName)])]),
+        ("holds", Json.bool (tbl == spec))]
+    | some ls =>
+      match TextIO.splitLimits ls tbl with
+      | none => return Json.mkObj [("model", Json.mkObj [("err", "ValueError")]), ("holds", Json.bool true)]
+      | some pieces => return Json.mkObj [("model", Json.mkObj [("ok", Json.mkObj [("pieces", ofList ofTrajs pieces), ("dtype", Json.str dtName)])]),
+          ("holds", Json.bool (tbl == spec))]
+
+/-- C19: chunking of the figure commands -/
+def opChunks (j : Json) : Except String Json := do
+  let l ← ints? (← field j "list")
+  let c ← nat? (← field j "c")
+  return Json.mkObj [("model", Json.mkObj [("ok", ofTrajs (TextIO.chunks l c))]), ("holds", Json.bool true)]
+
 def dispatch (j : Json) : Except String Json := do
   let op ← str? (← field j "op")
   match op with
@@ -571,6 +693,10 @@ def dispatch (j : Json) : Except String Json := do
   | "its" => opIts j
   | "filter" => opFilter j
   | "ck" => opCk j
+  | "heap_run" => opHeapRun j
+  | "io_write" => opIoWrite j
+  | "io_read" => opIoRead j
+  | "chunks" => opChunks j
   | _ => throw s!"unknown op {op}"
 
 end MsmVerif.Driver
